@@ -9,7 +9,10 @@ plus oracles in the properties' own words, judged against the GENERATOR's ground
        files carried at the grid positions where their pixels ended up;
   C12  a second conversion of the same stack, and stacks that received the files in other orders with random
        sequences of get_shape / get_data / get_affine / to_nifti(order', embed') / to_nifti_wrapper(order') calls
-       interleaved, give the same array, affine, header timing and dimension fields and embedded JSON (parsed).
+       interleaved, give the same array, affine, header timing and dimension fields and embedded JSON (parsed); a
+       result handed out earlier is not changed by later calls.  The same histories are part of the Coq case
+       (FullCorr.fc_hists): the model is evaluated after the same calls (FullHist.hist_state, a C12 history) and
+       compared call by call and on the final conversion (audit 3, issue 1).
 
 `FullPart` is reusable: the integrator adds it to props/c01.py, c06.py, c12.py (and may add it to c02.py / c20.py)
 together with the theorems of Props/C01full.v, Props/C12full.v, Props/C06conv.v.
@@ -30,6 +33,7 @@ COQ_PROPS = ["Props/C01full.v", "Props/C12full.v", "Props/C06conv.v"]
 COQ_EXTRA_TARGETS = ["Conv/FullCorr.vo"]
 THEOREMS = ["C01_voxel_lossless", "C01_full_projects", "C01_full_flip", "C01_normals_from_sources",
             "C12_full_dependency", "C12_full_history", "C12_full_fresh", "C12_full_resorted",
+            "C12_full_conv_state", "C12_full_hist_history",
             "C06_conversion_canonical", "C06_conversion_const_readable", "C06_conversion_per_volume",
             "C06_conversion_den"]
 ALLOWED_AXIOMS = []
@@ -186,23 +190,55 @@ def f32_geometry_exact(case):
 HIST_OPS = ['shape', 'data', 'affine', 'nifti', 'nifti', 'wrapper']
 
 
+def _rand_call(rng, orders):
+    kind = rng.choice(HIST_OPS)
+    if kind == 'nifti':
+        return ['nifti', rng.choice(orders + [None]), rng.random() < 0.5]
+    if kind == 'wrapper':
+        return ['wrapper', rng.choice(orders)]
+    return [kind]
+
+
 def gen_history(rng, n, orders):
-    """another add order with queries and conversions interleaved at random places (queries on an incomplete stack may
-    raise: the caller goes on, as a user would)"""
+    """another add order with 1-5 queries / conversions at random places, also between adds (a query on an incomplete
+    stack may raise: the history goes on, as a user would).  Steps: ['add', k] (k = position in the case's add order),
+    ['shape'], ['data'], ['affine'], ['nifti', order | None, embed], ['wrapper', order]."""
     order = list(range(n))
     rng.shuffle(order)
-    ops = []
+    calls = []
     for _ in range(rng.randrange(1, 6)):
-        kind = rng.choice(HIST_OPS)
-        pos = rng.choice([n, n, n, rng.randrange(0, n + 1)])
-        if kind == 'nifti':
-            ops.append([pos, ['nifti', rng.choice(orders + [None]), rng.random() < 0.5]])
-        elif kind == 'wrapper':
-            ops.append([pos, ['wrapper', rng.choice(orders)]])
-        else:
-            ops.append([pos, [kind]])
-    ops.sort(key=lambda x: x[0])
-    return {'order': order, 'ops': ops}
+        calls.append([rng.choice([n, n, n, rng.randrange(0, n + 1)]), _rand_call(rng, orders)])
+    calls.sort(key=lambda x: x[0])
+    steps = []
+    for k in range(n + 1):
+        steps += [c for p, c in calls if p == k]
+        if k < n:
+            steps.append(['add', order[k]])
+    return {'what': 'random', 'steps': steps}
+
+
+def gen_again(case):
+    """the case's own add order and conversion, then (as every history) the same conversion once more"""
+    n = len(case['files'])
+    vo, via = case['vo'], case['via']
+    call = ['wrapper', vo] if via == 'wrapper' else ['nifti', vo, via == 'nifti']
+    return {'what': 'again', 'steps': [['add', k] for k in range(n)] + [call]}
+
+
+def gen_slice_first(rng, case):
+    """one slice position of every volume first (a complete single-slice grid), queries on it, then the other files,
+    queries again: results handed out for the small stack must not change when the stack grows"""
+    S = case['dims'][0]
+    n = len(case['files'])
+    s0 = rng.choice([0, S - 1])
+    pos_of = {fi: k for k, fi in enumerate(case['add_order'])}
+    first = [pos_of[i] for i, f in enumerate(case['files']) if f['cell'][0] == s0]
+    rest = [k for k in range(n) if k not in first]
+    rng.shuffle(first)
+    rng.shuffle(rest)
+    mid = [['affine'], rng.choice([['data'], ['shape'], ['nifti', rng.choice(['', 'LAS', None]), False]])]
+    end = [rng.choice([['affine'], ['data'], ['nifti', '', False]])]
+    return {'what': 'slice-first', 'steps': [['add', k] for k in first] + mid + [['add', k] for k in rest] + end}
 
 
 def gen_case(rng, tier, **over):
@@ -260,7 +296,9 @@ def gen_case(rng, tier, **over):
         c['plan'] = plan
         c['via'] = over.get('via') or rng.choice(['wrapper', 'wrapper', 'nifti', 'nifti', 'plain'])
         c['filter'] = over.get('filter') or M.gen_filter(rng)
-        c['histories'] = [gen_history(rng, len(c['files']), ORDERS_QUICK) for _ in range(2 if not big else 3)]
+        c['histories'] = [gen_again(c)] + [gen_history(rng, len(c['files']), ORDERS_QUICK) for _ in range(1 if not big else 2)]
+        if dims[0] > 1:
+            c['histories'].append(gen_slice_first(rng, c))
         nd = 3 + (dims[1] > 1 or dims[2] > 1) + (dims[2] > 1)
         absd = any((c.get(w) or {}).get('abs') for w in ('time_order', 'vector_order'))
         c['kind'] = over.get('kind') or '%s/%s/%dd%s' % (mode, C.ORIENT_CLASS[kw['orient']], nd, '/abs' if absd else '')
@@ -269,7 +307,7 @@ def gen_case(rng, tier, **over):
 
 
 def gen_cases(rng, tier):
-    n = 420 if tier == 'quick' else 3000
+    n = 300 if tier == 'quick' else 2000
     out = []
     # systematic block: sagittal / coronal / axial x both directions x orders whose permutation is an involution
     # ('LAS'), a 3-cycle ('ASL', 'SAL', 'ILP', 'PSR') or the identity, 4-D and 5-D, slices > 1
@@ -328,40 +366,24 @@ def run_impl(case):
     embed = via != 'plain'
     given = {i: gen_truth(files[i], True) for i in range(len(files))} if hand else {}
 
-    def build(order, ops=()):
-        """a stack that receives the files in `order`; `ops` = [(position, op)]: calls made before the add number
-        `position` (exceptions of these intermediate calls are the caller's to swallow: the stack is used further)"""
-        st = dcmstack.DicomStack(time_order=L.make_ordering(dcmstack, case.get('time_order')),
-                                 vector_order=L.make_ordering(dcmstack, case.get('vector_order')),
-                                 meta_filter=make_filter(dcmstack, case['filter']))
-        dss = {}
+    def new_stack():
+        return dcmstack.DicomStack(time_order=L.make_ordering(dcmstack, case.get('time_order')),
+                                   vector_order=L.make_ordering(dcmstack, case.get('vector_order')),
+                                   meta_filter=make_filter(dcmstack, case['filter']))
 
-        def run_ops(pos):
-            for p, op in ops:
-                if p != pos:
-                    continue
-                try:
-                    if op[0] == 'shape':
-                        st.get_shape()
-                    elif op[0] == 'data':
-                        st.get_data()
-                    elif op[0] == 'affine':
-                        st.get_affine()
-                    elif op[0] == 'nifti':
-                        st.to_nifti(op[1], embed_meta=bool(op[2]))
-                    elif op[0] == 'wrapper':
-                        st.to_nifti_wrapper(op[1])
-                except Exception:
-                    pass
-        for k, i in enumerate(order):
-            run_ops(k)
-            ds = C.build_ds(files[i])
-            dss[i] = ds
-            if hand:
-                st.add_dcm(ds, copy.deepcopy(given[i]))
-            else:
-                st.add_dcm(ds)
-        run_ops(len(order))
+    def add(st, i):
+        ds = C.build_ds(files[i])
+        if hand:
+            st.add_dcm(ds, copy.deepcopy(given[i]))
+        else:
+            st.add_dcm(ds)
+        return ds
+
+    def build(order):
+        st = new_stack()
+        dss = {}
+        for i in order:
+            dss[i] = add(st, i)
         return st, dss
 
     def convert(st):
@@ -408,6 +430,7 @@ def run_impl(case):
             obs['raised'] = 'extension cannot be abstracted (%s)' % str(e)[:120]
             return obs
         obs['ext'] = E
+        obs['ext_T'] = [[float(x) for x in row] for row in np.asarray(w.meta_ext.reorient_transform, dtype=np.float64)]
         loc = C.locate_files(case, obs['shape'], obs['data'])
         allkeys = sorted(set(k for d in truth.values() for k in d))
         look = []
@@ -425,26 +448,84 @@ def run_impl(case):
                     vals.append([k, {'err': X.ERRMAP.get(type(e).__name__, 'ECrash')}])
             look.append([fid, ix, vals])
         obs['look'] = look
-    # ---- C12 in the property's words: the same stack converted again; other add orders with queries and conversions
-    # interleaved: the same array, affine, header fields and embedded JSON
-    hist = []
+    # ---- histories (C12): every call's result is KEPT and read at the end of the history; then the case's conversion
+    den = int(case.get('den', 1))
+
+    def light(image):
+        o = C.observe_image(image, den)
+        return {'shape': o['shape'], 'data': o['data'], 'dtype': o['dtype'], 'affine': o['affine'], 'sd': o['dim_info'][2]}
+
+    def arr_obs(a):
+        a = np.asarray(a)
+        return {'shape': [int(x) for x in a.shape], 'data': [int(x) for x in np.ascontiguousarray(a).ravel().tolist()]}
+
+    def read(kind, obj):
+        if kind == 'shape':
+            return [int(x) for x in obj]
+        if kind == 'affine':
+            return [[float(x) for x in row] for row in np.asarray(obj, dtype=np.float64)]
+        if kind == 'data':
+            return arr_obs(obj)
+        return light(obj)
+
     ref = public_parts(img)
-    try:
-        img_again, _ = convert(st)
-        pa = public_parts(img_again)
-        hist.append(['the same stack converted a second time', [k for k in sorted(ref) if ref[k] != pa[k]]])
-    except Exception as e:
-        hist.append(['the same stack converted a second time', ['raised %s' % type(e).__name__]])
+    hists = []
     for h in case.get('histories', []):
-        what = 'add order %s with calls %s' % (h['order'], [[p, op] for p, op in h['ops']])
-        try:
-            st2 = build([order[j] for j in h['order']], [(p, op) for p, op in h['ops']])[0]
-            img2, _ = convert(st2)
+        st2 = new_stack()
+        kept = []
+        for stp in h['steps']:
+            if stp[0] == 'add':
+                add(st2, order[stp[1]])                      # an add of a complete grid is never refused: propagate
+                kept.append(['none', None, None])
+                continue
+            try:
+                if stp[0] == 'shape':
+                    r = st2.get_shape()
+                elif stp[0] == 'data':
+                    r = st2.get_data()
+                elif stp[0] == 'affine':
+                    r = st2.get_affine()
+                elif stp[0] == 'nifti':
+                    r = st2.to_nifti(stp[1], embed_meta=bool(stp[2]))
+                else:
+                    r = st2.to_nifti_wrapper(stp[1]).nii_img
+                kind = stp[0] if stp[0] in ('shape', 'data', 'affine') else 'conv'
+                kept.append([kind, r, read(kind, r)])
+            except Exception as e:
+                kept.append(['raised', type(e).__name__, None])
+        rec = {'what': h['what'], 'steps': h['steps']}
+        with C.capture_slice_times() as cap2:
+            try:
+                img2, w2 = convert(st2)
+            except Exception as e:
+                rec['final'] = {'raised': '%s: %s' % (type(e).__name__, str(e)[:200])}
+                img2 = None
+        if img2 is not None:
+            fin = C.observe_image(img2, den)
+            fin['stimes_arg'] = cap2.calls[-1] if cap2.calls else None
+            if embed:
+                fin['ext'] = X.ext_to_json(w2.meta_ext)
+                fin['ext_T'] = [[float(x) for x in row] for row in np.asarray(w2.meta_ext.reorient_transform, dtype=np.float64)]
+                fin['look'] = []
+            rec['final'] = fin
             p2 = public_parts(img2)
-            hist.append([what, [k for k in sorted(ref) if ref[k] != p2[k]]])
-        except Exception as e:
-            hist.append([what, ['raised %s' % type(e).__name__]])
-    obs['hist'] = hist
+            rec['diff'] = [k for k in sorted(ref) if ref[k] != p2[k]]
+        else:
+            rec['diff'] = ['raised']
+        # the kept results, read NOW; `changed` = a result handed out earlier is no longer what it was when returned
+        res, changed = [], []
+        for n_, (kind, obj, snap) in enumerate(kept):
+            if kind in ('none', 'raised'):
+                res.append([kind, obj])
+                continue
+            now = read(kind, obj)
+            res.append([kind, now])
+            if now != snap:
+                changed.append([n_, h['steps'][n_]])
+        rec['res'] = res
+        rec['changed'] = changed
+        hists.append(rec)
+    obs['hist'] = hists
     return obs
 
 
@@ -456,7 +537,7 @@ def cmat_f(m):
 
 def coq_obs(case, obs):
     if obs.get('raised') is not None or 'shape' not in obs:
-        return '(mkfobs true [] [] (@nil N) [] (None, None, None) 0%Q ((@nil N), (@nil N)) None None [])'
+        return '(mkfobs true [] [] (@nil N) [] (None, None, None) 0%Q ((@nil N), (@nil N)) None None None [])'
     di = obs['dim_info']
     st = obs['stimes_arg']
     if 'ext' in obs:
@@ -466,12 +547,48 @@ def coq_obs(case, obs):
                      for fid, ix, vals in obs['look'] if ix is not None)
     else:
         ext, look = 'None', '[]'
-    return '(mkfobs false %s %s %s %s (%s, %s, %s) %s (%s, %s) %s %s %s)' % (
+    T = copt(obs.get('ext_T'), cmat_f)
+    return '(mkfobs false %s %s %s %s (%s, %s, %s) %s (%s, %s) %s %s %s %s)' % (
         clist(cnat(x) for x in obs['shape']), clist(cz(x) for x in obs['data']), cstr(obs['dtype']),
         clist(clist(cq(x) for x in row) for row in obs['affine']),
         copt(di[0], cnat), copt(di[1], cnat), copt(di[2], cnat), cq(obs['pixdim4']),
         cstr(obs['units'][0]), cstr(obs['units'][1]),
-        copt(st, lambda l: clist(cq(x) for x in l)), ext, look)
+        copt(st, lambda l: clist(cq(x) for x in l)), ext, T, look)
+
+
+def coq_hop(stp):
+    if stp[0] == 'add':
+        return '(HAdd %s)' % cnat(stp[1])
+    if stp[0] == 'shape':
+        return 'HShape'
+    if stp[0] == 'data':
+        return 'HData'
+    if stp[0] == 'affine':
+        return 'HAffine'
+    if stp[0] == 'nifti':
+        return '(HConv %s %s)' % (cstr(stp[1] or ''), cbool(bool(stp[2])))
+    return '(HConv %s true)' % cstr(stp[1] or '')
+
+
+def coq_hres(r):
+    kind, v = r
+    if kind == 'none':
+        return 'HR_none'
+    if kind == 'raised':
+        return 'HR_raised'
+    if kind == 'shape':
+        return '(HR_shape %s)' % clist(cnat(x) for x in v)
+    if kind == 'affine':
+        return '(HR_affine %s)' % cmat_f(v)
+    if kind == 'data':
+        return '(HR_data %s %s)' % (clist(cnat(x) for x in v['shape']), clist(cz(x) for x in v['data']))
+    return '(HR_conv %s %s %s %s %s)' % (clist(cnat(x) for x in v['shape']), clist(cz(x) for x in v['data']), cstr(v['dtype']),
+                                        cmat_f(v['affine']), copt(v['sd'], cnat))
+
+
+def coq_hist(case, rec):
+    return '(mkfhist %s %s %s)' % (clist(coq_hop(x) for x in rec['steps']), clist(coq_hres(r) for r in rec['res']),
+                                   coq_obs(case, rec['final']))
 
 
 def coq_case(case, obs):
@@ -486,10 +603,11 @@ def coq_case(case, obs):
     vo = 'None' if wf is None else '(Some %s)' % cbool(wf)
     tf = truth_filter(case['filter'])
     allkeys = sorted(set(k for _, d in obs['truth'] for k in d))
-    return '(mkfcase %s %s %s %s %s %s %s %s %s false %s %s %s)' % (
+    hists = clist(coq_hist(case, rec) for rec in obs.get('hist', []))
+    return '(mkfcase %s %s %s %s %s %s %s %s %s false %s %s %s %s)' % (
         cbool(case.get('time_order') is not None), cbool(case.get('vector_order') is not None),
         files, metas, maffs, faffs, cstr(case['vo']), cbool(case['via'] != 'plain'), cbool(bool(case['exact'])),
-        clist(cpair(cstr(k), cbool(bool(tf(k)))) for k in allkeys), vo, coq_obs(case, obs))
+        clist(cpair(cstr(k), cbool(bool(tf(k)))) for k in allkeys), vo, coq_obs(case, obs), hists)
 
 
 # ------------------------------------------------------------------------------------------------ oracles
@@ -600,9 +718,16 @@ def oracle_messages(case, obs):
         if E['sdim'] != obs['dim_info'][2]:
             out.append('slice-dim: extension slice_dim %s, header slice axis %s' % (E['sdim'], obs['dim_info'][2]))
     # ---- C12
-    for what, diff in obs.get('hist', []):
-        if diff:
-            out.append('history: %s gives another image (%s differ)' % (what, ', '.join(diff)))
+    for rec in obs.get('hist', []):
+        calls = [x for x in rec['steps'] if x[0] != 'add']
+        adds = [x[1] for x in rec['steps'] if x[0] == 'add']
+        if rec.get('diff'):
+            out.append('history: after the adds %s with the calls %s the same conversion gives another image (%s differ)'
+                       % (adds, calls, ', '.join(rec['diff'])))
+            break
+        if rec.get('changed'):
+            out.append('history-kept: the result of call %s was changed by later calls on the stack (adds %s, calls %s)'
+                       % (rec['changed'][0], adds, calls))
             break
     return out
 
@@ -637,8 +762,9 @@ def shrink(case):
         for k in range(len(case['histories'])):
             c = copy.deepcopy(case); c['histories'] = [case['histories'][k]]; yield c
     for k, h in enumerate(case.get('histories', [])):
-        for j in range(len(h['ops'])):
-            c = copy.deepcopy(case); del c['histories'][k]['ops'][j]; yield c
+        for j, stp in enumerate(h['steps']):
+            if stp[0] != 'add':
+                c = copy.deepcopy(case); del c['histories'][k]['steps'][j]; yield c
     for tag in ('RepetitionTime', 'InPlanePhaseEncodingDirection', 'AcquisitionTime'):
         if any(tag in f['tags'] for f in case['files']):
             c = copy.deepcopy(case)
@@ -658,11 +784,11 @@ def shrink(case):
 class FullPart:
     NAME = "full"
     CORR_REQUIRE = ("From Coq Require Import Qcanon.\nFrom DV Require Import Common.Jv Stack.Model Orient.Model Ext.Types Ext.Model "
-                    "Conv.Geom Conv.Header Conv.Meta Conv.Full Conv.FullCorr.")
+                    "Conv.Geom Conv.Header Conv.Meta Conv.Full Conv.FullHist Conv.FullCorr.")
     CORR_CASE_TYPE = "FullCorr.fcase"
     CORR_CHECK = "FullCorr.check"
     CORR_SHOW = "FullCorr.show"
-    SHARD = 10
+    SHARD = 6
     IMPL_TIMEOUT = 900
     RULE = ("complete S x T x V grids (quick S <= 4, T, V <= 3) over axial / sagittal / coronal / in-plane rotated / oblique "
             "orientations with dyadic cosines (exact stream) and true obliques with float 3-4-5 / 2-3-6 cosines (15 %) x both slice "
@@ -671,9 +797,12 @@ class FullPart:
             "abs_ordering list (35 % of the explicit ones, shuffled) x metadata through add_dcm(ds, meta) with a generator-built "
             "dict (12 value patterns x 5 value types, None values, missing keys) or dcmstack's own extraction x 5 filter families x "
             "{to_nifti_wrapper(order), to_nifti(order, embed_meta=True), to_nifti(order, embed_meta=False)} x shuffled add order; per "
-            "case a second conversion of the same stack and 2 (thorough 3) random histories: another add order with 1-5 calls of "
-            "get_shape / get_data / get_affine / to_nifti(order' incl. None, embed') / to_nifti_wrapper(order') at random positions, "
-            "also between adds; non-trivial = embedding with a 4-D/5-D result, a moved slice axis or a shuffled add order")
+            "case 3-4 HISTORIES carried into the Coq case and evaluated by the model after the same calls: the conversion repeated on "
+            "the same stack; 1 (thorough 2) random ones = another add order with 1-5 calls of get_shape / get_data / get_affine / "
+            "to_nifti(order' incl. None, embed') / to_nifti_wrapper(order') at random positions, also between adds; for S > 1 one "
+            "'slice-first' history (one slice position of every volume, queries, the other files, queries); every call's result is "
+            "kept and read at the end of the history, then the case's conversion is made on that stack; non-trivial = embedding "
+            "with a 4-D/5-D result, a moved slice axis or a shuffled add order")
     gen_cases = staticmethod(gen_cases)
     run_impl = staticmethod(run_impl)
     coq_case = staticmethod(coq_case)
